@@ -129,6 +129,9 @@ static void cliPass(const std::string& prop, const Alpha& al, const RTA& a, cons
 	{
 		if (cliRun(prop, "union", "-r expl union " + fa + " " + fb, r) && rm::checkBin(a, *b, r, al, true) == 0) R->violation("C02/cli/union/language", "");
 		if (cliRun(prop, "isect", "-r expl isect " + fa + " " + fb, r) && rm::checkBin(a, *b, r, al, false) == 0) R->violation("C02/cli/isect/language", "");
+		if (cliRun(prop, "union-s", "-r expl -s union " + fa + " " + fb, r) && rm::checkBin(a, *b, r, al, true) == 0) R->violation("C02/cli/union-s/language", "");
+		if (cliRun(prop, "union-p", "-r expl -p union " + fa + " " + fb, r) && rm::checkBin(a, *b, r, al, true) == 0) R->violation("C02/cli/union-p/language", "");
+		if (cliRun(prop, "isect-s", "-r expl -s isect " + fa + " " + fb, r) && rm::checkBin(a, *b, r, al, false) == 0) R->violation("C02/cli/isect-s/language", "");
 	}
 	else if (prop == "C03")
 	{
